@@ -73,7 +73,11 @@ class _Chk:
       except TypeError:
         rec.keys.add((cid, repr(key)))
       return True
-    return rec.case(cid, key, ok, msg() if callable(msg) else msg, wit() if callable(wit) else wit)
+    w = wit() if callable(wit) else wit
+    if not ok and len(w) > 1190:    # the record keeps 1200 chars: never store a cut snippet.
+      w = ('# witness too long for the record; failing input: ' + repr(key)[:900] +
+           '\nraise AssertionError("see failing input")')
+    return rec.case(cid, key, ok, msg() if callable(msg) else msg, w)
 
 
 def _out(fn, *a, **k):
@@ -420,7 +424,7 @@ DKEYS = ['a', 'b', 'x.y', '0', '[0]', '$', 'é', '-1', 'a[0].b', '.']
 LEAVES = ['1', "'va'", 'None', '[]', '{}', '(1, 2)', "'a'"]
 
 
-def _value_exprs(tier, seed):
+def _value_exprs(tier, seed, nrand):
   """(expr, flavour) of nested values: plain, symbolic, with objects."""
   out = []
   # depth-1 exhaustive: dict with 1..2 keys, list with 1..2 elems.
@@ -460,7 +464,6 @@ def _value_exprs(tier, seed):
     out.append((f'[0, {e}]', 'plain'))
     out.append((f'A({e}, [{e}])', 'obj'))
     out.append((f"pg.Dict({{'$': {e}, 7: {e}}})", 'sym'))
-  nrand = 150 if tier == 'quick' else 3000
   for _ in range(nrand):
     out.append((rand(r.randrange(2, 5), False), 'plain'))
     e = rand(r.randrange(2, 5), True)
@@ -511,7 +514,7 @@ PROBES = ['a', 'zz', '0', 'x.y', '$', 0, 1, 2, 7, -1, -2, -3, -9]
 
 
 def drv_query(tier, seed):
-  vals = _value_exprs(tier, seed)
+  vals = _value_exprs(tier, seed, 100 if tier == 'quick' else 2000)
   rec = Recorder('C10', 'KeyPath.query/get/exists on every node and on absent keys',
                  scope=f'{len(vals)} nested values (plain / symbolic / objects; dict keys from {len(DKEYS)} tricky strings and ints); '
                        f'every node path + {len(PROBES)} probe keys below every node')
@@ -589,7 +592,7 @@ def drv_query(tier, seed):
 # ---------------------------------------------------------------------------
 
 def drv_traverse(tier, seed):
-  vals = _value_exprs(tier, seed)
+  vals = _value_exprs(tier, seed, 500 if tier == 'quick' else 8000)
   rec = Recorder('C10', 'pg.traverse, utils.traverse, pg.query, rebind(fn): every node once, with its path',
                  scope=f'{len(vals)} nested values; every node as STOP / CONTINUE point for values with <= 12 nodes')
   chk = _Chk(rec)
@@ -791,7 +794,7 @@ def _flat_values(tier, seed):
       ks = r.sample(FKEYS, r.randrange(1, 4))
       return '{' + ', '.join(f'{x!r}: {rand(depth - 1)}' for x in ks) + '}'
     return '[' + ', '.join(rand(depth - 1) for _ in range(r.randrange(1, 4))) + ']'
-  for _ in range(400 if tier == 'quick' else 20000):
+  for _ in range(2500 if tier == 'quick' else 40000):
     e = rand(r.randrange(2, 6))
     if e[0] in '[{' and len(e) > 2:
       out.append(e)
@@ -1159,7 +1162,27 @@ def drv_keypathset(tier, seed):
   return rec.result()
 
 
-DRIVERS = [drv_roundtrip, drv_arith, drv_query, drv_traverse, drv_flatten, drv_keypathset]
+
+def _safe(drv):
+  """Last resort: an exception that escapes a driver is reported as a failed case
+  (with the traceback), not as a checker error."""
+  import functools as _ft
+  import traceback as _tb
+
+  @_ft.wraps(drv)
+  def run(tier, seed):
+    try:
+      return drv(tier, seed)
+    except Exception as e:  # pylint: disable=broad-except
+      tb = _tb.format_exc()
+      return dict(title=drv.__name__, scope='aborted by an unexpected exception', cases=1, distinct_nontrivial=1,
+                  failures=[dict(case_id=f'unexpected-exception/{drv.__name__}', message=tb[-600:], count=1, input='',
+                                 witness=f'raise AssertionError({(type(e).__name__ + ": " + str(e))[:300]!r})')],
+                  samples=[])
+  return run
+
+
+DRIVERS = [_safe(d) for d in (drv_roundtrip, drv_arith, drv_query, drv_traverse, drv_flatten, drv_keypathset)]
 
 
 def replay(rec):
